@@ -5,7 +5,7 @@
    the source on every run) says whether Indexer.indexed is typed. *)
 From Verif.Base Require Import Tactics.
 From Verif.C06 Require Model.
-From Verif.C01 Require Import Model ModelTree Extracted ProofsNames ProofsRead ProofsPipe ProofsTree ProofsTime ProofsFile ProofsCode.
+From Verif.C01 Require Import Model ModelTree Extracted ProofsNames ProofsRead ProofsPipe ProofsTree ProofsTreeBS ProofsTime ProofsFile ProofsCode.
 Local Open Scope N_scope.
 
 (* names: unescaping the escaped name gives back the name, for every byte string *)
@@ -86,21 +86,30 @@ Print Assumptions indexed_packs_written.
 
 (* ------------------------------------------------------------------ path lookup (blob/tree.rs)
 
-   Trees are node lists with the names stored ESCAPED; a directory has pairwise different
-   (unescaped) names.  For every repository of such trees and every (path, node) the listing
+   Trees are node lists with the names stored ESCAPED (names_escaped), strictly sorted by the
+   UNESCAPED name (sorted_by_raw; hence pairwise different) — what backup writes.  For every repository of such trees and every (path, node) the listing
    (NodeStreamer, `ls`) yields, Tree::node_from_path on that path returns exactly that node — with
    the comparison and search strategy the source uses now (the Extracted.lookup flags). *)
-Theorem node_from_path_finds_listed : forall R fuel root path n, wf_repo_escaped R ->
+Theorem node_from_path_finds_listed : forall R fuel root path n, wf_repo_sorted R ->
   In (path, n) (ls fuel R root) ->
   node_from_path lookup_binary_search lookup_compares_stored R root path = Some n.
 Proof. exact node_from_path_finds_listed_lemma. Qed.
 Print Assumptions node_from_path_finds_listed.
 
-Theorem find_nodes_from_path_finds_listed : forall R fuel root path n, wf_repo_escaped R ->
+Theorem find_nodes_from_path_finds_listed : forall R fuel root path n, wf_repo_sorted R ->
   In (path, n) (ls fuel R root) ->
   node_from_path find_nodes_binary_search find_nodes_compares_stored R root path = Some n.
 Proof. exact find_nodes_finds_listed_lemma. Qed.
 Print Assumptions find_nodes_from_path_finds_listed.
+
+(* every way of looking a component up except a binary search on the stored name is correct:
+   scan on node.name(), scan on the stored name against escape_filename(component), binary search
+   on node.name() *)
+Theorem node_from_path_variants : forall bsearch stored, negb (bsearch && stored) = true ->
+  forall R fuel root path n, wf_repo_sorted R ->
+  In (path, n) (ls fuel R root) -> node_from_path bsearch stored R root path = Some n.
+Proof. exact node_from_path_finds_listed_gen2. Qed.
+Print Assumptions node_from_path_variants.
 
 (* the scan comparing node.name() needs nothing but distinct names (no assumption on how the
    names are stored: also names that fail to unescape are found under their fallback) *)
